@@ -448,3 +448,26 @@ func H_ClosePositions_Two() {
 	vrf.Cover("done")
 	s.checkTwo("close-positions(two)")
 }
+
+// open by an owner who already holds a position of the same pool and collateral: consolidated into it
+//vrf:cover open-ok
+//vrf:bound 1 existing position + symbolic remainder; consolidating open with symbolic collateral and leverage in (1, 10]; join amount havocked
+//vrf:max-paths 3000
+func H_Open_Consolidate() {
+	s := setup(true)
+	env, ctx := s.env, s.env.Ctx
+	coll := vrf.Int("collateral")
+	vrf.Assume(coll.IsPositive())
+	vrf.Assume(coll.LTE(sdkmath.NewIntWithDecimal(1, 15)))
+	lev := vrf.Dec("leverage")
+	vrf.Assume(lev.GT(sdkmath.LegacyOneDec()))
+	vrf.Assume(lev.LTE(sdkmath.LegacyNewDec(10)))
+	_, err := env.Lev.Open(ctx, &levtypes.MsgOpen{Creator: owner.String(), CollateralAsset: usdc, CollateralAmount: coll, AmmPoolId: 1, Leverage: lev, StopLossPrice: sdkmath.LegacyZeroDec()})
+	if err != nil {
+		return // failed transaction: rolled back by baseapp
+	}
+	vrf.Cover("open-ok")
+	vrf.Assert(env.Lev.GetPositionCount(ctx) == 1, "C08 consolidate: no new position id is allocated")
+	vrf.Assert(env.W.BalOf(owner, usdc).Equal(s.wallet.Sub(coll)), "C08 consolidate: the owner pays exactly the collateral")
+	s.check("open-consolidate", 1)
+}
